@@ -1,5 +1,25 @@
 import re
 
+# numbers in Fortran notation that Python's float() does not read: exponent
+# introduced by 'd'/'D' or by a bare sign (1.5d3, 1.5+3, .15D-1)
+re_fortran_float = re.compile(r'^\s*([-+]?(?:[0-9]+\.?[0-9]*|\.[0-9]+))'
+                              r'(?:[dD]([-+]?[0-9]+)|([-+][0-9]+))\s*$')
+
+
+def to_float(token):
+    """
+    Convert a number written in MCNP (Fortran) notation to a float.
+    """
+    try:
+        return float(token)
+    except ValueError:
+        match = re_fortran_float.match(token)
+        if match is None:
+            raise
+        mantissa, exp_d, exp_bare = match.groups()
+        exponent = exp_d if exp_d is not None else exp_bare
+        return float(mantissa + 'e' + exponent)
+
 
 def shorten(s, N=80):
     """
